@@ -4,6 +4,7 @@ mod exec;
 mod gen;
 mod gen_ext;
 mod pure;
+mod serde_runner;
 mod set_runner;
 mod table_runner;
 mod tape;
@@ -110,6 +111,7 @@ const PROFILES: &[Profile] = &[
     prof("reserve", "map", "reserve"),
     prof("iter", "map", "iter"),
     prof("xback", "map", "xback"),
+    prof("serde", "serde", "serde"),
     prof("table", "table", "table"),
     Profile { steps: Some(320), ..prof("table-churn", "table", "table-churn") },
     prof("set", "set", "set"),
